@@ -454,4 +454,27 @@ theorem cutOk_iff {max : Nat} {g w : Nat × Bytes} :
   · have h' : max < w.2.length := by omega
     simp [h, h', and_assoc]
 
+/-- every spec line ends in its newline -/
+theorem specLines_getLast {c : Bytes} {off : Nat} {cur : Bytes} {x : Nat × Bytes}
+    (h : x ∈ specLines c off cur) : x.2.getLast? = some NL := by
+  induction c generalizing off cur with
+  | nil => simp [specLines] at h
+  | cons b bs ih =>
+    by_cases hb : b = NL
+    · simp only [specLines, hb, ↓reduceIte, List.mem_cons] at h
+      rcases h with rfl | h
+      · simp
+      · exact ih h
+    · simp only [specLines, hb, ↓reduceIte] at h; exact ih h
+
+/-- after the pipeline's cut the event no longer depends on what the worker kept of the middle -/
+theorem cutAtLimit_of_cutOk {max : Nat} {g w : Nat × Bytes} (h : cutOk max g w = true)
+    (hw : w.2.getLast? = some NL) : cutAtLimit max g.2 = cutAtLimit max w.2 := by
+  obtain ⟨_, h2, h3⟩ := cutOk_iff.mp h
+  by_cases hl : w.2.length ≤ max
+  · rw [h2 hl]
+  · have hl' : max < w.2.length := by omega
+    obtain ⟨a, b, c⟩ := h3 hl'
+    simp [cutAtLimit, hl', a, b, c, hw]
+
 end FileD.Worker
